@@ -9,6 +9,7 @@ import (
 	"fmt"
 	ccpb "github.com/google/go-tdx-guest/proto/checkconfig"
 	mrand "math/rand"
+	"reflect"
 	"strings"
 
 	"verifharness/mon"
@@ -972,6 +973,83 @@ func c08(x *mon.Ctx) {
 		}
 		x.Require("malformed-message", 0, n, n)
 	}
+	// ---- switches: every boolean member an options value can hold, found by reflection over validate.Options (none today; a
+	//      member added later is covered the day it appears). The statement is unconditional: with any switch on — each alone,
+	//      all together — a quote that misses a configured expectation or a fixed bit mask is still not accepted. (Only the
+	//      must-reject side is judged: a switch may well make validation stricter.)
+	{
+		var paths [][]int
+		var names []string
+		var walk func(t reflect.Type, idx []int, name string)
+		walk = func(t reflect.Type, idx []int, name string) {
+			for i := 0; i < t.NumField(); i++ {
+				f := t.Field(i)
+				if f.PkgPath != "" {
+					continue
+				}
+				ni := append(append([]int{}, idx...), i)
+				switch f.Type.Kind() {
+				case reflect.Struct:
+					walk(f.Type, ni, name+f.Name+".")
+				case reflect.Bool:
+					paths = append(paths, ni)
+					names = append(names, name+f.Name)
+				}
+			}
+		}
+		walk(reflect.TypeOf(validate.Options{}), nil, "")
+		x.Extra["option_switches_found_by_reflection"] = len(paths)
+		if len(paths) > 0 {
+			sets := append([][][]int{}, paths2sets(paths)...)
+			setNames := append(append([]string{}, names...), "all-switches")
+			n := 0
+			for si, set := range sets {
+				for b := 0; b < 64; b++ {
+					for fi, field := range []string{"xfam", "td_attributes"} {
+						qp := policyQuote(r)
+						off := []int{128, 120}[fi]
+						base := []uint64{3, 0}[fi]
+						binary.LittleEndian.PutUint64(qp.Body[off:], base^(1<<uint(b)))
+						q, _ := ref.ParseQuote(qp.Bytes())
+						for _, pin := range []string{"nothing", "every-field", "mr-td-differs"} {
+							var pol ref.Policy
+							switch pin {
+							case "every-field":
+								pol = ref.Policy{QeVendorID: q.QeVendorID, MinTeeTcbSvn: q.TeeTcbSvn, MrSeam: q.MrSeam, TdAttributes: q.TdAttributes, Xfam: q.Xfam, MrTd: q.MrTd, MrConfigID: q.MrConfigID,
+									MrOwner: q.MrOwner, MrOwnerConfig: q.MrOwnerConfig, ReportData: q.ReportData, Rtmrs: q.Rtmrs[:], AnyMrTd: [][]byte{q.MrTd}}
+							case "mr-td-differs":
+								pol = ref.Policy{MrTd: variant(r, "last-differs", q.MrTd)}
+							}
+							v := ref.EvalPolicy(q, &pol)
+							if len(v.Misses) == 0 {
+								continue
+							}
+							opts := toOptions(&pol)
+							for _, path := range set {
+								reflect.ValueOf(opts).Elem().FieldByIndex(path).SetBool(true)
+							}
+							var e1, e2 error
+							pv, st := mon.Guard(func() { e1 = validate.TdxQuote(mon.BuildMessage(q), opts); e2 = validate.RawTdxQuote(qp.Bytes(), opts) })
+							param := fmt.Sprintf("%s=true/%s-bit%d/pinned=%s", setNames[si], field, b, pin)
+							prob := ""
+							switch {
+							case pv != "":
+								prob = "validation panics: " + pv + "\n" + st
+							case e1 == nil || e2 == nil:
+								prob = "validation succeeded although the quote misses a configured expectation: " + strings.Join(v.Misses, "; ")
+							}
+							if prob != "" {
+								x.Violation("option-switch-on", param, prob, "none", param)
+							}
+							x.Note("option-switch-on", param, false, pv != "", prob == "")
+							n++
+						}
+					}
+				}
+			}
+			x.Require("option-switch-on", 0, n, n)
+		}
+	}
 	x.Require("td-attributes-bit", 12, 300, 380)
 	x.Require("min-qe-svn", 15, 8, 25)
 	x.Require("min-pce-svn", 15, 8, 25)
@@ -980,3 +1058,12 @@ func c08(x *mon.Ctx) {
 }
 
 var _ = pb.QuoteV4{}
+
+// paths2sets: each switch alone, then all of them together.
+func paths2sets(paths [][]int) [][][]int {
+	var out [][][]int
+	for _, p := range paths {
+		out = append(out, [][]int{p})
+	}
+	return append(out, paths)
+}
